@@ -62,11 +62,36 @@ def strategy_(draw):
         c["len_frac"] = draw(st.floats(0.0, 3.0))
     elif kind == "interpolator":
         c["queries"] = [draw(st.floats(-2.0, 3.0)) for _ in range(6)]
+        # time origins other than 0, negative ones included ("before the first time" is then not "t < 0")
+        if c["time"]["kind"] == "intdays":
+            c["time"]["start"] = draw(st.sampled_from([0, 5, -7, -400]))
+        else:
+            c["time"]["start"] = draw(st.sampled_from([0.0, c["time"].get("start", 0.0), -3.0, -1000.0, 250.0]))
+        c["mode"] = draw(st.sampled_from(["flux", "flux", "density"]))
+    if kind in ("bad-length", "constant-schedule"):
+        # the schedule is documented as an Iterable of floats: array, list, tuple and pandas Series are all handed over
+        c["sched_container"] = draw(st.sampled_from(["array", "array", "list", "tuple", "series", "series-offset-index"]))
     return c
 
 
 def strategy(tier):
     return strategy_()
+
+
+def _as_container(sched, how):
+    if how == "list":
+        return [float(v) for v in sched]
+    if how == "tuple":
+        return tuple(float(v) for v in sched)
+    if how == "series":
+        import pandas as pd
+
+        return pd.Series(sched)
+    if how == "series-offset-index":
+        import pandas as pd
+
+        return pd.Series(sched, index=np.arange(len(sched)) + 100)
+    return sched
 
 
 def _simulate(r, time, sched=None):
@@ -112,7 +137,8 @@ def check_case(case) -> Result:
         n_bad = {"zero": 0, "minus1": nt - 1, "plus1": nt + 1, "double": 2 * nt, "one": 1}.get(case["len_mode"], int(case["len_frac"] * nt))
         if n_bad == nt:
             n_bad = nt + 2
-        sched = np.full(n_bad, r.p_f)
+        sched = _as_container(np.full(n_bad, r.p_f), case.get("sched_container", "array"))
+        res.labels["sched_container"] = case.get("sched_container", "array")
         try:
             r.res.simulate(time, sched)
         except Exception:  # noqa: BLE001
@@ -177,7 +203,8 @@ def check_case(case) -> Result:
             res.skipped = "the ideal reservoir takes no schedule"
             return res
         r2 = flowcase.run(case, simulate=False)
-        m2 = _simulate(r2, time, np.full(len(time), r.p_f))
+        res.labels["sched_container"] = case.get("sched_container", "array")
+        m2 = _simulate(r2, time, _as_container(np.full(len(time), r.p_f), case.get("sched_container", "array")))
         if not np.array_equal(m1, m2):
             n, j = np.argwhere(m1 != m2)[0]
             res.bad("C17/constant-schedule-equals-scalar", f"constant schedule p_f={r.p_f!r}: m[{n},{j}]={m2[n, j]!r} vs scalar setting {m1[n, j]!r}")
@@ -197,6 +224,12 @@ def check_case(case) -> Result:
     rf_t = np.asarray(lib("recovery_factor(time)", r.res.recovery_factor, time), float)
     if rf_t.shape != rf.shape or not np.array_equal(rf_t, rf):
         res.bad("C17/interpolator-reproduces-recovery", "recovery_factor(time=<the simulated times>) differs from recovery_factor()")
+    res.labels["interp_mode"] = "flux"
+    if case.get("mode") == "density" and single:
+        # the interpolator describes the recovery most recently asked for: here the in-place (density) recovery
+        rf = np.asarray(lib("recovery_factor(density)", r.res.recovery_factor, density=True), float).copy()
+        res.labels["interp_mode"] = "density"
+    res.labels["t0"] = "0" if time[0] == 0 else ("<0" if time[0] < 0 else ">0")
     f = lib("recovery_factor_interpolator", r.res.recovery_factor_interpolator)
     at = np.asarray(f(time), float)
     res.check("C17/interpolator-reproduces-recovery", float(np.max(np.abs(at - rf))), 1e-13 * max(float(np.max(np.abs(rf))), 1e-300) + 1e-300, "interpolator at the simulated times vs recovery;")
